@@ -625,6 +625,15 @@ def value_getattr(interp, o, a):
         if a == "max": return B(lambda axis=None: amax(o, axis))
         if a == "min": return B(lambda axis=None: amin(o, axis))
         if a == "at": return AtProxy(o, interp)
+        if a == "any": return B(lambda axis=None: aany(o, axis))
+        if a == "all": return B(lambda axis=None: aall(o, axis))
+        if a == "argmax": return B(lambda axis=None: argmax(o, axis))
+        if a in ("ravel", "flatten"): return B(lambda: reshape(o, (-1,)))
+        if a == "size": return prod(list(o.shape))
+        if a == "mean": return B(lambda axis=None: interp.models["jax.numpy"]["mean"].fn(o, axis) if isinstance(interp.models.get("jax.numpy"), dict) else NotImplemented)
+        if a == "ptp": return B(lambda axis=None: interp.binop("Sub", amax(o, axis), amin(o, axis)))
+        if a == "squeeze": return B(lambda axis=None: interp.models["jax.numpy"]["squeeze"].fn(o, axis))
+        if a == "item" and o.ndim == 0: return B(lambda: o.get(()))
     if isinstance(o, AtProxy):
         raise Unsupported("at attr")
     if isinstance(o, AtIndexed):
